@@ -113,8 +113,9 @@ def expect(t, where, ids=None, shape="skip", default=None, fmts=None, mutable=No
     if default is not None and Payload.get(t.getDefault()) != default:
         raise Violation("default", f"{where}: leaf default {t.getDefault()!r}, expected {default}")
     if fmts is not None:
+        # None = not specified by the property (the format of a rank that merging / unflattening creates)
         got = [t.getFormat(r) for r in t.getRankIds()]
-        if got != fmts:
+        if len(got) != len(fmts) or any(w is not None and g != w for g, w in zip(got, fmts)):
             raise Violation("formats", f"{where}: rank formats {got}, expected {fmts}")
     if mutable is not None and t.isMutable() != mutable:
         raise Violation("mutable", f"{where}: mutability hint {t.isMutable()}, expected {mutable}")
@@ -218,7 +219,7 @@ def check(case, rec):
             ms = sum(ss) - len(ss) + 1
         nid = ids[:dd] + [merged_ids] + ids[dd + levels + 1:]
         ns = shape[:dd] + [ms] + shape[dd + levels + 1:]
-        nf = fmts[:dd] + ["C"] + fmts[dd + levels + 1:]
+        nf = fmts[:dd] + [None] + fmts[dd + levels + 1:]
         if op == "merge":
             r = t.mergeRanks(depth=dd, levels=levels, coord_style=style)
         else:
@@ -229,7 +230,7 @@ def check(case, rec):
             coords_in_shape(r, where)
             r = r.unflattenRanks(depth=dd, levels=levels)
             where = f"unflatten of {where}"
-            nf2 = fmts[:dd] + ["C"] * (levels + 1) + fmts[dd + levels + 1:]
+            nf2 = fmts[:dd] + [None] * (levels + 1) + fmts[dd + levels + 1:]
             expect(r, where, ids=ids, shape=ashape if auth else "skip", default=default, fmts=nf2, mutable=mut)
     elif op == "fill_in_steps":
         # a tensor without declared shape filled in place, looked at while partly filled and again later
@@ -274,7 +275,7 @@ def check(case, rec):
                             f"{ids1} -> {f1.getRankIds()}")
         nid = ids[:dd] + [ids[dd:dd + 3]] + ids[dd + 3:]
         ns = shape[:dd] + [tuple(shape[dd:dd + 3])] + shape[dd + 3:]
-        nf = fmts[:dd] + ["C"] + fmts[dd + 3:]
+        nf = fmts[:dd] + [None] + fmts[dd + 3:]
         expect(r, where, ids=nid, shape=ns if auth else "skip", default=default, fmts=nf, mutable=mut)
         back = f1.unflattenRanks(depth=dd, levels=1)
         expect(back, f"unflatten of the first result after {where}", ids=ids)
